@@ -12,6 +12,8 @@ pub(crate) mod hmac_block_stream;
 mod io;
 mod key;
 pub(crate) mod variant_dictionary;
+#[cfg(keepass_verif)]
+pub mod verif_hooks;
 pub(crate) mod xml_db;
 
 pub use self::db::Database;
